@@ -27,10 +27,6 @@ extern "C" void h_disconnected()
     Fx &fx = *new Fx;
     auto *d = fx.d;
     const bool tryNext = (vp_c10_cfg() & CFG_TRYNEXT) != 0, redirect = (vp_c10_cfg() & CFG_REDIRECT) != 0;
-#ifdef KF_redirect_keeps_session
-    // known finding: a redirect that arrives while a session is established (see spec.py); that input class is excluded here
-    if (redirect && !tryNext) vp_assume(!fx.preSession);
-#endif
     fx.q->_q_socketDisconnected();
     vp_assert(!d->isAuthenticated, "C10 after the socket disconnected the client is not authenticated");
     neverReportsSession(fx);
@@ -302,4 +298,41 @@ extern "C" void h_sm_answer()
         vp_assert(fx.listenerIsClient() && fx.nError() == 0 && vp_c10_disconnects() == 0, "C10 after the session opened the client itself listens");
         vp_assert(ans != 1 || (d->c2sStreamManager.m_canResume == resumable && d->streamAckManager.m_enabled), "C10 <enabled/> decides whether the new session can be resumed");
     }
+}
+
+// ---- H9: the answer to the resource-binding request (legacy bind) arrives --------------------------------------------------------------
+// answer (case): 0 <iq type=result id=ID><bind><jid>TEXT</jid></bind></iq> (whether TEXT is a full JID is the regular expression's
+// verdict: arbitrary), 1 <iq type=error id=ID><bind/></iq>, 2 <iq type=result id=ID/> (not a bind answer); EV_SM_OFFERED: features offered sm
+enum { EV_SM_OFFERED = 4 };
+extern "C" void h_bind_answer()
+{
+    Fx &fx = *new Fx;       // instance cfg: the client itself listens, no pending request, no session reported on this connection yet
+    auto *d = fx.d;
+    const unsigned ans = cfgEv() & 3; const bool smOffered = (cfgEv() & EV_SM_OFFERED) != 0;
+    d->isAuthenticated = fx.preAuth = true;
+    d->c2sStreamManager.m_enabled = fx.preEnabledC2s = false; d->c2sStreamManager.m_streamResumed = fx.preResumed = false;
+    d->streamAckManager.m_enabled = false;
+    d->c2sStreamManager.m_smAvailable = smOffered;
+    // the REAL request step establishes the pending request with its continuation
+    fx.q->startResourceBinding();
+    vp_assert(vp_c10_sent_n() == 1 && vp_c10_sent_tag(0) == T_BIND && d->listener.index() == 6 && vp_c10_sig_total() == 0, "C10 the bind step sends its request and reports no session yet");
+    QString id = std::get<BindManager>(d->listener).m_iqId;
+    vp_c10_reset_logs();
+    QDomElement el = vpElement(QStringLiteral("iq"), ns_client.toString());
+    vpAttr(el, QStringLiteral("id"), id);
+    vpAttr(el, QStringLiteral("type"), ans == 1 ? QStringLiteral("error") : QStringLiteral("result"));
+    if (ans != 2) {
+        QDomElement b = vpElement(QStringLiteral("bind"), ns_bind.toString());
+        if (ans == 0) { QDomElement j = vpElement(QStringLiteral("jid"), QString()); QString t = vpSymStringNonEmpty(2); vp_dom_set_text(&j, &t); vp_dom_append(&b, &j); }
+        vp_dom_append(&el, &b);
+    }
+    fx.q->handlePacketReceived(el);
+    vp_assert(fx.nConnected() <= 1 && d->sessionStarted == (fx.nConnected() == 1), "C10 a session is reported as established at most once, and exactly when it is recorded as started");
+    vp_assert(fx.nDisconnected() == 0, "C10 `disconnected` is only reported once the socket reports it");
+    const bool gaveUp = fx.nError() == 1 && vp_c10_disconnects() == 1 && !d->sessionStarted;
+    const bool goesOn = fx.nError() == 0 && vp_c10_disconnects() == 0 && !d->sessionStarted && sentOnly(T_SM_ENABLE) && d->listener.index() == 5;
+    const bool opened = fx.nError() == 0 && vp_c10_disconnects() == 0 && d->sessionStarted && sentNoRequest() && fx.listenerIsClient();
+    vp_assert(ans == 0 ? (gaveUp || (smOffered ? goesOn : opened)) : gaveUp,
+              "C10 bind answered: the session opens only after a successful bind with nothing left to negotiate; with stream management offered the enable request comes first; any failure gives up (error reported, disconnect requested)");
+    if (d->sessionStarted) fx.requestsAllCancelled(); else fx.requestsAllRetained();
 }
